@@ -1,10 +1,12 @@
 //! E-sched: forced schedules at the verification hooks (hooks build only).
 //! case: <scenario>;<request kind>   scenario = change_window | analyze_pair | publish_pair | parse_pair
-//!                                              | two:<state>:<hookA>:<hookB>:<ab|ba>
+//!                                              | two:<state>:<hookA>:<hookB>:<ab|ba>[:c]
 //!   two: request Ta is started and parked at its first arrival at hookA, then request Tb is started and parked at
 //!        its first arrival at hookB (if it gets there: it may block on something Ta holds); the gates are opened in
 //!        the given order with time for the released request to finish in between.  state = fresh (nothing opened or
-//!        parsed, disk version 0) | changed (version 1 in the editor, nothing analysed)
+//!        parsed, disk version 0) | changed (version 1 in the editor, nothing analysed); hooks are given by index into
+//!        HOOKS; with the suffix `:c` Tb is not a request but the change notification installing version 2.
+//!        A request or notification that has not returned 8 s after both gates were opened is reported as HANG.
 //!                                    kind = completion | diagnostics | definition
 //! result: per request the document version its answer was computed from (read off the answer) and whether
 //!         the answer equals the answer the same request gets alone on that version:  r1=<v>/<same> r2=<v>/<same> hook=<reached>
@@ -159,7 +161,8 @@ pub fn run_case(line: &str) -> String {
     if let Some(rest) = scenario.strip_prefix("two:") {
         // two:<state>:<index of hookA>:<index of hookB>:<order>
         let f: Vec<&str> = rest.split(':').collect();
-        if f.len() != 4 { return "BADSCENARIO".to_string(); }
+        if f.len() != 4 && !(f.len() == 5 && f[4] == "c") { return "BADSCENARIO".to_string(); }
+        let b_changes = f.len() == 5;
         let (ia, ib) = match (f[1].parse::<usize>(), f[2].parse::<usize>()) { (Ok(a), Ok(b)) if a < HOOKS.len() && b < HOOKS.len() => (a, b), _ => return "BADSCENARIO".to_string() };
         let (hook_a, hook_b) = (HOOKS[ia], HOOKS[ib]);
         let changed = match f[0] { "fresh" => false, "changed" => true, _ => return "BADSCENARIO".to_string() };
@@ -179,10 +182,17 @@ pub fn run_case(line: &str) -> String {
         })));
         let spawn = |tname: &str| {
             let pm = w.pm.clone(); let uri = w.uri.clone(); let k = kind.to_string();
+            let changer = b_changes && tname == "goldverif-tb";
             let (tx, rx) = std::sync::mpsc::channel();
-            let h = std::thread::Builder::new().name(tname.to_string()).spawn(move || {
-                let a = request_exact(&pm, &uri, &k, version); let _ = tx.send(()); a }).unwrap();
-            (h, rx)
+            let (txa, rxa) = std::sync::mpsc::channel::<String>();
+            let _ = std::thread::Builder::new().name(tname.to_string()).spawn(move || {
+                let a = if changer {
+                    let mut pm = pm; let pool = ThreadPool::new(1, Box::new(Silent));
+                    let _ = pm.notify_document_changed(&uri, &text(2), &pool);
+                    "CHANGED".to_string()
+                } else { request_exact(&pm, &uri, &k, version) };
+                let _ = tx.send(()); let _ = txa.send(a); }).unwrap();
+            (rxa, rx)
         };
         // wait until the request is parked at its gate, has finished, or the time is up
         let parked_or_done = |g: &Gate, rx: &std::sync::mpsc::Receiver<()>, ms: u64, done: &mut bool| -> bool {
@@ -203,11 +213,17 @@ pub fn run_case(line: &str) -> String {
         } else {
             open(&gb); if !done_b { let _ = rxb.recv_timeout(Duration::from_millis(400)); } open(&ga);
         }
-        let a1 = ha.join().unwrap_or_else(|_| "PANIC".to_string());
-        let a2 = hb.join().unwrap_or_else(|_| "PANIC".to_string());
+        // the threads are not joined: one that never returns must not take the engine with it
+        let a1 = ha.recv_timeout(Duration::from_secs(8)).unwrap_or_else(|_| "HANG".to_string());
+        let a2 = hb.recv_timeout(Duration::from_secs(8)).unwrap_or_else(|_| "HANG".to_string());
         crate::verif_hooks::install(None);
+        if a1 == "HANG" || a2 == "HANG" {
+            std::mem::forget(w);      // the stuck threads still use this world
+            return format!("HANG r1={} r2={} hook={} hookb={}", a1 == "HANG", a2 == "HANG", ra, rb);
+        }
         let mut out = Vec::new();
         for (n, a) in [("r1", &a1), ("r2", &a2)] {
+            if a == "CHANGED" { continue; }
             let v = version_of(kind, a);
             let same = match v.parse::<usize>() { Ok(k) => *a == solo(kind, k), Err(_) => false };
             out.push(format!("{}={}/{}", n, v, same));
